@@ -50,7 +50,7 @@ class RecGymEnv:
     """Factory for a recording wrapper around a seeded Gymnasium environment."""
 
     @staticmethod
-    def make(trace, env_id, max_steps=None):
+    def make(trace, env_id, max_steps=None, wrap=None):
         import gymnasium as gym
 
         class Rec(gym.Wrapper):
@@ -69,12 +69,17 @@ class RecGymEnv:
                 return out
 
         kw = {} if max_steps is None else {"max_episode_steps": max_steps}
-        return Rec(gym.make(env_id, **kw))
+        env = gym.make(env_id, **kw)
+        if wrap == "rescale":
+            # a wrapper that defines its own action space object
+            env = gym.wrappers.RescaleAction(env, -1.0, 1.0)
+        return Rec(env)
 
 
 def _gym_env(run):
     c = run.cfg
-    env = RecGymEnv.make(run.trace, c["gym_env"], c.get("gym_max_steps"))
+    env = RecGymEnv.make(run.trace, c["gym_env"], c.get("gym_max_steps"),
+                         c.get("gym_wrap"))
     env.action_space.seed(c["seed"])
     run.env = env
     run.envs = [env]
